@@ -305,6 +305,18 @@ def arrange(rng, draft, s0, mode=None):
                               "../up.json", "http://store.example/lib/"])
             S = set_at(S, list(p), dict({idkw: nid}, **node))
             info.setdefault("nested_ids", []).append([list(p), nid])
+    # the OTHER drafts' id keyword is not an id here: sprinkle it on the evaluation path (in S and in S0 alike)
+    if rng.random() < 0.3:
+        foreign = "$id" if idkw == "id" else "id"
+        subs = [p for p, s in walk_subschemas(draft, S) if isinstance(s, dict) and (not p or p[0] != "definitions")
+                and foreign not in s and "$ref" not in s]
+        rng.shuffle(subs)
+        for p in subs[:rng.randrange(1, 3)]:
+            node = get_at(S, list(p)) if p else S
+            new = dict(node)
+            new[foreign] = rng.choice(["http://elsewhere.example/x/", "sub/", "http://store.example/lib/", "other.json", "#frag"])
+            S = set_at(S, list(p), new) if p else new
+            info["foreign_id_keywords"] = info.get("foreign_id_keywords", 0) + 1
     s0_with_ids = S
     store = {}
     handler_docs = {}
